@@ -47,3 +47,10 @@ Definition chk_pick_schedule : P (list Z) :=
 Definition chk_readonly : P (list Z) :=
   kind <- pz ;; n <- pz ;; mism <- pz ;;
   ret (verdict (mism =? 0) (mism =? 0) [mism]).
+
+(** 1103: contended phase: kind, ids, goroutines, stuck (a round of same-id operations did not come back
+    within the watchdog's time), panics *)
+Definition chk_contended : P (list Z) :=
+  kind <- pz ;; nids <- pz ;; g <- pz ;; stuck <- pz ;; panics <- pz ;;
+  let ok := (stuck =? 0) && (panics =? 0) in
+  ret (verdict ok ok [stuck; panics]).
